@@ -145,11 +145,13 @@ func runTScenario(t *testing.T, raw []byte) (lines []M, problem string) {
 				// depend on the context): two identical consecutive collects are a snapshot of one instant
 				att, exe, ret, hdg := stableCounters(exec)
 				le, canc := exec.LastError(), exec.IsCanceled()
+				first, retry := exec.IsFirstAttempt(), exec.IsRetry()
 				for i := 0; i < 100; i++ {
 					att2, exe2, ret2, hdg2 := stableCounters(exec)
 					le2, canc2 := exec.LastError(), exec.IsCanceled()
-					same := att2 == att && exe2 == exe && ret2 == ret && hdg2 == hdg && le2 == le && canc2 == canc
-					att, exe, ret, hdg, le, canc = att2, exe2, ret2, hdg2, le2, canc2
+					first2, retry2 := exec.IsFirstAttempt(), exec.IsRetry()
+					same := att2 == att && exe2 == exe && ret2 == ret && hdg2 == hdg && le2 == le && canc2 == canc && first2 == first && retry2 == retry
+					att, exe, ret, hdg, le, canc, first, retry = att2, exe2, ret2, hdg2, le2, canc2, first2, retry2
 					if same {
 						break
 					}
@@ -157,6 +159,7 @@ func runTScenario(t *testing.T, raw []byte) (lines []M, problem string) {
 				rec.lines = append(rec.lines, M{"ev": "FnStart", "x": x, "L": len(sc.Stack) + 1, "k": k, "t": rec.vnow(),
 					"att": att, "exe": exe, "ret": ret, "hdg": hdg, "st": int64(exec.StartTime().Sub(rec.t0) / unit), "el": int64(exec.ElapsedTime() / unit),
 					"ast": int64(exec.AttemptStartTime().Sub(rec.t0) / unit), "ael": int64(exec.ElapsedAttemptTime() / unit),
+					"first": first, "retry": retry, "ishedge": exec.IsHedge(),
 					"lr": resName(exec.LastResult()), "le": projectErrT(le), "hedge": exec.IsHedge(), "canceled": canc})
 				rec.mu.Unlock()
 				f := sc.FnDefault
